@@ -526,7 +526,8 @@ DFGRgetrig(int32 file_id, uint16 ref, DFGRrig *rig)
                     DFdifree(GroupID);
                     HGOTO_ERROR(DFE_READERROR, FAIL);
                 }
-                if ((ntstring[2] != 8) || (ntstring[1] != DFNT_UCHAR)) {
+                /* unsigned 8-bit data only; the GR interface writes its compatibility RIGs with DFNT_UINT8 */
+                if ((ntstring[2] != 8) || (ntstring[1] != DFNT_UCHAR && ntstring[1] != DFNT_UINT8)) {
                     DFdifree(GroupID);
                     HGOTO_ERROR(DFE_BADCALL, FAIL);
                 }
@@ -556,10 +557,11 @@ static int
 DFGRaddrig(int32 file_id, uint16 ref, DFGRrig *rig)
 {
     uint8 ntstring[4];
-    int32 lutsize;
-    int32 GroupID;
-    uint8 GRtbuf[64]; /* local buffer for reading RIG info */
-    int   ret_value = SUCCEED;
+    int32  lutsize;
+    int32  GroupID;
+    uint16 ntref;
+    uint8  GRtbuf[64]; /* local buffer for reading RIG info */
+    int    ret_value = SUCCEED;
 
     HEclear();
 
@@ -577,11 +579,15 @@ DFGRaddrig(int32 file_id, uint16 ref, DFGRrig *rig)
         ntstring[1] = DFNT_UCHAR;   /* type */
         ntstring[2] = 8;            /* width: RIG data is 8-bit chars */
         ntstring[3] = DFNTC_BYTE;   /* class: data are numeric values */
-        if (Hputelement(file_id, DFTAG_NT, ref, (uint8 *)ntstring, (int32)4) == FAIL)
+        /* the RIG's ref is only unique among RIGs: another interface may already have a
+           number type element with that ref, which must not be overwritten */
+        if ((ntref = Htagnewref(file_id, DFTAG_NT)) == 0)
+            HGOTO_ERROR(DFE_NOREF, FAIL);
+        if (Hputelement(file_id, DFTAG_NT, ntref, (uint8 *)ntstring, (int32)4) == FAIL)
             HGOTO_ERROR(DFE_PUTELEM, FAIL);
         rig->datadesc[IMAGE].nt.tag = DFTAG_NT;
-        rig->datadesc[IMAGE].nt.ref = ref;
-        Ref.nt                      = (int)ref;
+        rig->datadesc[IMAGE].nt.ref = ntref;
+        Ref.nt                      = (int)ntref;
     }
 
     if (Ref.dims[IMAGE] == 0) {
